@@ -83,6 +83,15 @@ def num(v: int):
 # the SYS instruction set
 # ------------------------------------------------------------------------------------------------
 def sys_isa_yaml(cfg) -> str:
+    y = _sys_isa_yaml(cfg)
+    if cfg.get('upper_regs'):
+        # the registers are declared in upper case (source text keeps writing them in lower case: registers are matched
+        # without regard to letter case); operand configurations must name them as declared
+        y = re.sub(r'register: (a|b|sp)\b', lambda m: 'register: ' + m.group(1).upper(), y)
+    return y
+
+
+def _sys_isa_yaml(cfg) -> str:
     zones = ''
     if cfg['zones']:
         zones = '  memory_zones:\n' + ''.join(f'    - name: "{n}"\n      start: {s}\n      end: {e}\n' for n, s, e in cfg['zones'])
@@ -114,7 +123,7 @@ general:
   page_size: {cfg['page']}
   cstr_terminator: {cfg['terminator']}
   allow_embedded_strings: {'true' if cfg['embedded'] else 'false'}
-  registers: [a, b, sp]
+  registers: {'[A, B, SP]' if cfg.get('upper_regs') else '[a, b, sp]'}
   identifier: {{name: verif-sys, version: "1.0.0"}}
 {pre}operand_sets:
   reg:
@@ -425,7 +434,7 @@ def config_term(cfg) -> str:
     syms = '[' + '; '.join(f'({C.coq_string_codes(n)}, {C.coq_string_codes(v or "")})' for n, v in cfg['syms']) + ']'
     cli = '[' + '; '.join(f'({C.coq_string_codes(n)}, {C.coq_string_codes(v)})' for n, v in cfg['cli']) + ']'
     return (f'{{| c_addr_bits := {cfg["addr_bits"]}; c_origin := {C.zlit(cfg["origin"])}; c_page := {C.zlit(cfg["page"])}; '
-            f'c_registers := {str_list(REGISTERS)}; c_keywords := {str_list(KEYWORDS)}; c_pre_zones := {zones}; '
+            f'c_registers := {str_list([r.upper() for r in REGISTERS] if cfg.get("upper_regs") else REGISTERS)}; c_keywords := {str_list(KEYWORDS)}; c_pre_zones := {zones}; '
             f'c_pre_consts := {consts}; c_pre_data := {data}; c_pre_syms := {syms}; c_cli_syms := {cli} |}}')
 
 
@@ -543,6 +552,9 @@ def impl_cli(case):
     try:
         isa, paths, incdirs = write_case(case, td)
         out = os.path.join(td, 'out.bin')
+        if case.get('preseed_out'):
+            with open(out, 'wb') as f:
+                f.write(b'\xa5' * case['preseed_out'])          # a stale, longer image from an earlier build
         args, cwd = cli_args(case, isa, paths, incdirs, out), td
         if case.get('cli_relative'):
             # the way a build script calls it: from the source directory, the main file by its bare name, the source
@@ -598,6 +610,8 @@ def layout_stmt(rng, opts, st):
         ops = []
         for o in st[2]:
             t = o if isinstance(o, str) else (o[0] if isinstance(o, list) else expr_text(o))
+            if not isinstance(o, (str, list)) and opts.get('tabs') and ' ' in t and rng.random() < 0.4:
+                t = t.replace(' ', rng.choice(['\t', '  ', ' \t']))           # between the tokens of an expression
             if isinstance(o, str) and opts.get('case') and rng.random() < 0.5:
                 t = _recase(rng, t)                   # a plain register operand
             ops.append(t)
